@@ -1,14 +1,15 @@
 //@unit xreg
 //@exec
-//@props C06,C11
+//@props C06,C11,C16
 // BOUNDED executable stand-in for model registration and failure reporting (labelled bounded, never counted as proved).
 // The REAL text of simulation::add_model, BuildContext (struct + impl), SimInit::add_model, Simulation::run, ModelId,
-// DeadlockInfo, ExecutionError is cut from /repo on every run with NO rewrite rule and compiled by rustc against the
-// executable stubs below. `main` builds every model hierarchy up to the bound (trees with up to 4 models, depth <= 3, every
+// DeadlockInfo, ExecutionError and SimInit::init is cut from /repo on every run with NO rewrite rule and compiled by rustc
+// against the executable stubs below (the model task - `init().await`, then the receive loop - is the real async block). `main` builds every model hierarchy up to the bound (trees with up to 4 models, depth <= 3, every
 // assignment of 0/1/2 queued messages to the mailboxes), registers it through the real code, lets the stub executor report
 // (a) UnprocessedMessages and (b) a panic of each model in turn, and compares Simulation::run's report with the statement of
 // C06 (exactly the non-empty mailboxes of models of the simulation, by fully qualified name, with their sizes) and C11
-// (Panic / NoRecipient name the model whose task it was).
+// (Panic / NoRecipient name the model whose task it was), and, per model, with C16: init runs exactly once, during
+// SimInit::init, before that model takes its first message, under the qualified name parent.child.
 #![allow(dead_code, unused_imports, unused_variables, unused_mut, unused_macros, unreachable_code)]
 use std::any::{Any, TypeId};
 use std::cell::Cell;
@@ -30,7 +31,14 @@ pub struct SendError;
 pub trait ChannelObserver: Send {
     fn len(&self) -> usize;
 }
-pub trait Clock: Send {}
+#[derive(Copy, Clone, Debug, PartialEq, Eq)]
+pub enum SyncStatus {
+    Synchronized,
+    OutOfSync(Duration),
+}
+pub trait Clock: Send {
+    fn synchronize(&mut self, deadline: MonotonicTime) -> SyncStatus;
+}
 pub struct SchedulerQueue;
 #[derive(Clone)]
 pub struct AtomicTime;
@@ -38,6 +46,13 @@ pub struct AtomicTimeReader;
 impl AtomicTime {
     pub fn reader(&self) -> AtomicTimeReader {
         AtomicTimeReader
+    }
+    pub fn write(&self, _t: MonotonicTime) {}
+}
+pub struct Scheduler(GlobalScheduler);
+impl Scheduler {
+    pub(crate) fn new(q: Arc<Mutex<SchedulerQueue>>, t: AtomicTimeReader) -> Self {
+        Scheduler(GlobalScheduler::new(q, t))
     }
 }
 #[derive(Clone)]
@@ -51,7 +66,7 @@ impl GlobalScheduler {
 pub struct Signal;
 impl Signal {
     pub fn is_set(&self) -> bool {
-        true // the model loop stops after init: only registration is exercised
+        false
     }
 }
 
@@ -62,6 +77,7 @@ pub struct Chan {
 }
 pub struct Receiver<M> {
     pub chan: Arc<Chan>,
+    served: bool,
     _m: std::marker::PhantomData<M>,
 }
 pub struct Obs(Arc<Chan>);
@@ -74,15 +90,21 @@ impl<M> Receiver<M> {
     pub fn observer(&self) -> impl ChannelObserver {
         Obs(self.chan.clone())
     }
+    // the first call "processes a message" (logged), the second one finds the channel closed: the model loop ends
     pub async fn recv(&mut self, _model: &mut M, _cx: &mut Context<M>) -> Result<(), ()> {
-        Err(())
+        if self.served {
+            return Err(());
+        }
+        self.served = true;
+        EVENT_LOG.lock().unwrap().push(("message", self.chan.tag));
+        Ok(())
     }
 }
 pub struct Address<M>(pub Arc<Chan>, std::marker::PhantomData<M>);
 pub struct Mailbox<M: Model>(pub(crate) Receiver<M>);
 impl<M: Model> Mailbox<M> {
     pub fn scripted(len: usize, tag: usize) -> Self {
-        Mailbox(Receiver { chan: Arc::new(Chan { len, tag }), _m: std::marker::PhantomData })
+        Mailbox(Receiver { chan: Arc::new(Chan { len, tag }), served: false, _m: std::marker::PhantomData })
     }
     pub fn address(&self) -> Address<M> {
         Address(self.0.chan.clone(), std::marker::PhantomData)
@@ -106,10 +128,13 @@ pub struct InitializedModel<M: Model>(pub(crate) M);
 thread_local! { pub(crate) static CURRENT_MODEL_ID: Cell<ModelId> = const { Cell::new(ModelId::none()) }; }
 // what happened: (model id current while init ran, the name in the context given to init, the mailbox tag)
 static INIT_LOG: Mutex<Vec<(Option<usize>, String, usize)>> = Mutex::new(Vec::new());
+// per model (mailbox tag): "init" when its init runs, "message" when its receive loop takes a message
+static EVENT_LOG: Mutex<Vec<(&'static str, usize)>> = Mutex::new(Vec::new());
 
 pub trait Model: Sized + Send + 'static {
     fn init(self, cx: &mut Context<Self>) -> impl Future<Output = InitializedModel<Self>> + Send {
         INIT_LOG.lock().unwrap().push((CURRENT_MODEL_ID.get().get(), cx.name().to_string(), cx.tag));
+        EVENT_LOG.lock().unwrap().push(("init", cx.tag));
         async { InitializedModel(self) }
     }
 }
@@ -214,6 +239,8 @@ impl Simulation {
 //@end
 impl SimInit {
 //@item src=nexosim/src/simulation/sim_init.rs kind=fn name=add_model within=`impl SimInit` id=SimInit::add_model
+//@end
+//@item src=nexosim/src/simulation/sim_init.rs kind=fn name=init within=`impl SimInit` id=SimInit::init
 //@end
 }
 
